@@ -54,8 +54,12 @@ def splitOnce (sep : Nat) : Bytes → List Bytes
       | [] => [[c]]
       | f :: fs => (c :: f) :: fs
 
-def decDigits (n : Nat) : Bytes :=
-  if n < 10 then [48 + n] else decDigits (n / 10) ++ [48 + n % 10]
+/-- decimal digits, most significant first (`fuel` ≥ n is always enough; structural, so that it evaluates) -/
+def decDigitsF : Nat → Nat → Bytes
+  | 0, n => [48 + n % 10]
+  | f + 1, n => if n < 10 then [48 + n] else decDigitsF f (n / 10) ++ [48 + n % 10]
+
+def decDigits (n : Nat) : Bytes := decDigitsF n n
 
 /-- `%d` -/
 def dec (i : Int) : Bytes :=
